@@ -16,7 +16,7 @@
 (* loaded rule (clone, then optimise with a switch set; a reload).  All    *)
 (* share the case's denotation.                                            *)
 (***************************************************************************)
-EXTENDS Naturals, Sequences, FiniteSets, TauLang
+EXTENDS Naturals, Sequences, FiniteSets, TauLang, TauCond
 
 VARIABLES
   cur,      \* current case: [src, docs, plan, ...]
@@ -35,6 +35,14 @@ RInit == /\ cur = [src |-> [cond |-> [t |-> "none"], ids |-> <<>>], docs |-> <<>
 (* a new case: a fresh rule text *)
 NewCase(c) == /\ cur' = c /\ phase' = "idle" /\ objs' = <<>> /\ den' = <<>>
 
+(* A condition may be given as TEXT (C05, C03): its meaning is then the tree the reference     *)
+(* grammar assigns to it.                                                                     *)
+IdNames(src) == {src.ids[i][1] : i \in DOMAIN src.ids}
+IsText(src) == src.cond.t = "text"
+CondAst(src) == IF IsText(src) THEN RefCondOfText(src.cond.s, IdNames(src)) ELSE src.cond
+Ast(src) == [cond |-> CondAst(src), ids |-> src.ids]
+TextOk(src) == ~IsErr(CondAst(src))
+
 (* which documents of the case have a language-level oracle *)
 HasOracle(c) == "oracle" \in DOMAIN c /\ c.oracle
 WellTyped(c) == "wt" \in DOMAIN c /\ c.wt
@@ -42,7 +50,9 @@ WellTyped(c) == "wt" \in DOMAIN c /\ c.wt
 (* Rule::from_str / from_value.  Loading never panics (C04); a source that  *)
 (* is well typed by construction loads (C02/C05); the spec is silent on     *)
 (* other sources (ok or err).                                               *)
-LoadOutcomes(c) == IF WellTyped(c) THEN {"ok"} ELSE {"ok", "err"}
+LoadOutcomes(c) == IF IsText(c.src) /\ "bodies_ok" \in DOMAIN c /\ c.bodies_ok
+                   THEN (IF TextOk(c.src) THEN {"ok"} ELSE {"err"})     \* the grammar decides
+                   ELSE IF WellTyped(c) THEN {"ok"} ELSE {"ok", "err"}
 Load(out) == /\ phase = "idle"
              /\ out \in LoadOutcomes(cur)
              /\ phase' = IF out = "ok" THEN "loaded" ELSE "failed"
@@ -58,7 +68,7 @@ Optimise(k, sw, out) ==
 
 (* the verdicts the specification allows for document d (1-based)           *)
 Allowed(d) ==
-  (IF HasOracle(cur) THEN LangVerdicts(cur.src, cur.docs[d]) ELSE BOOLEAN)
+  (IF HasOracle(cur) /\ TextOk(cur.src) THEN LangVerdicts(Ast(cur.src), cur.docs[d]) ELSE BOOLEAN)
   \cap (IF d \in DOMAIN den THEN {den[d]} ELSE BOOLEAN)
 
 Bind(d, v) == IF d \in DOMAIN den THEN den ELSE [x \in (DOMAIN den) \cup {d} |-> IF x = d THEN v ELSE den[x]]
@@ -71,7 +81,7 @@ Match(k, d, v) ==
   /\ UNCHANGED <<cur, phase, objs>>
 
 (* three-valued observation of the whole condition on document d            *)
-TriAllowed(d) == IF HasOracle(cur) THEN LangEval(cur.src, cur.docs[d]) ELSE Tri
+TriAllowed(d) == IF HasOracle(cur) /\ TextOk(cur.src) THEN LangEval(Ast(cur.src), cur.docs[d]) ELSE Tri
 ObserveTri(k, d, r) ==
   /\ phase = "loaded" /\ k + 1 \in DOMAIN objs /\ d \in DOMAIN cur.docs
   /\ r \in TriAllowed(d)
